@@ -757,7 +757,14 @@ def block_switch(ctx, tm, psi):
                 tol += 0.5 * (nh * dt) ** 2 if spec["kind"] == "cmf" else 5e-5
             err = float(np.linalg.norm(dense_state(cur) - scipy.linalg.expm(-1j * t * H) @ v0))
         except Exception as e:
-            run.violation(f"switch:exception:{exc_sig(e)}", replay_base(tm, v0, dict(sequence=hist), error=repr(e)))
+            sig = f"switch:exception:{exc_sig(e)}"
+            if isinstance(e, ValueError) and "reshape" in str(e) and max(cur.bond_dims) > big:
+                # §7 D11 reached by an ordinary history: a two-site step enlarged the bonds beyond the
+                # exact rank, the following tdvp_mu_* call cannot digest them
+                where = exc_sig(e).split("@")[1]
+                sig = {"_evolve_tdvp_mu_cmf": "tdvp_mu_cmf:over-complete-bonds:ValueError-reshape",
+                       "func_vmf": "tdvp_mu_vmf:over-complete-bonds:ValueError-reshape"}.get(where, sig)
+            run.violation(sig, replay_base(tm, v0, dict(sequence=hist + [(name_of(spec), "failed")]), error=repr(e), bond=list(cur.bond_dims)))
             continue
         ctx.evald(("switch", tm.label, tuple(h[0] for h in hist)))
         run.count("switch:sequences")
